@@ -17,6 +17,7 @@ var replicateSend = ir.Callee{Pkg: "proto", Recv: "OxiaLogReplication_ReplicateS
 func checkC03(c *chk.Ctx) {
 	h := newH(c)
 	c.Decided = []string{
+		"R03h the WAL sync loop completes only the sync requests received before it read the appended offset (shared with C01/C08)",
 		"R03a a follower sends an Ack only for offsets known to be synced (bounded by Wal.LastOffset or after a successful Wal.Sync)",
 		"R03b the term comparison, under the controller lock, precedes every log mutation / ack / bookkeeping update of the append handler",
 		"R03c lastAppendedOffset is only assigned from the WAL head, the truncation result, a successfully appended entry or the installed commit offset",
@@ -35,6 +36,7 @@ func checkC03(c *chk.Ctx) {
 	ruleNoTruncateDecision(h, "R03f")
 	ruleR03e(h)
 	ruleTruncateClearsTail(h, "R03g")
+	ruleSyncCompletionsCovered(h, "R03h")
 }
 
 // ackSends lists Send(&proto.Ack{...}) calls on the replicate stream in package server.
